@@ -1126,6 +1126,17 @@ impl Handler {
                     if let Some(request_id) = session.awaiting_enr.as_ref() {
                         if &response.id == request_id {
                             session.awaiting_enr = None;
+                            // The handler's own ENR request has been answered: it is no longer
+                            // active. Left in place it would run into its timeout later, which
+                            // fails every other active request to this node with a spurious
+                            // timeout.
+                            if self
+                                .active_requests
+                                .remove_request(&node_address, &response.id)
+                                .is_some()
+                            {
+                                self.remove_expected_response(node_address.socket_addr);
+                            }
                             match response.body {
                                 ResponseBody::Nodes { mut nodes, .. } => {
                                     // Received the requested ENR
